@@ -205,6 +205,47 @@ func init() {
 			}
 			return out
 		}},
+		Body{"scores of other objects built by Set (v3.1 AV:P, v3.0, v4, v2)", func(keep *[]Retained) string {
+			var a gocvss31.CVSS31
+			for _, kv := range [][2]string{{"AV", "P"}, {"AC", "H"}, {"PR", "H"}, {"UI", "R"}, {"S", "C"}, {"C", "H"}, {"I", "H"}, {"A", "H"}, {"MAV", "L"}} {
+				a.Set(kv[0], kv[1])
+			}
+			var b gocvss30.CVSS30
+			for _, kv := range [][2]string{{"AV", "L"}, {"AC", "H"}, {"PR", "L"}, {"UI", "N"}, {"S", "C"}, {"C", "H"}, {"I", "H"}, {"A", "H"}, {"E", "U"}} {
+				b.Set(kv[0], kv[1])
+			}
+			var c gocvss40.CVSS40
+			for _, kv := range [][2]string{{"AV", "P"}, {"AC", "H"}, {"AT", "P"}, {"PR", "H"}, {"UI", "A"}, {"VC", "N"}, {"VI", "L"}, {"VA", "N"}, {"SC", "L"}, {"SI", "N"}, {"SA", "N"}, {"E", "U"}, {"MSA", "S"}} {
+				c.Set(kv[0], kv[1])
+			}
+			var d gocvss20.CVSS20
+			for _, kv := range [][2]string{{"AV", "N"}, {"AC", "L"}, {"Au", "N"}, {"C", "C"}, {"I", "C"}, {"A", "C"}, {"E", "F"}, {"CDP", "LM"}, {"TD", "M"}, {"CR", "H"}} {
+				d.Set(kv[0], kv[1])
+			}
+			return fmt.Sprint(a.BaseScore(), a.TemporalScore(), a.EnvironmentalScore(), a.Exploitability(), a.Impact(), "|",
+				b.BaseScore(), b.TemporalScore(), b.EnvironmentalScore(), "|", c.Score(), c.Nomenclature(), "|",
+				d.BaseScore(), d.TemporalScore(), d.EnvironmentalScore())
+		}},
+		Body{"Rating sequences A (3 packages)", func(keep *[]Retained) string {
+			out := ""
+			for _, sc := range []float64{2.0, 9.5, 11, 11, 2.0, -0.1, 0, 4.0} {
+				a, e1 := gocvss30.Rating(sc)
+				b, e2 := gocvss31.Rating(sc)
+				c, e3 := gocvss40.Rating(sc)
+				out += fmt.Sprint(a, e1, b, e2, c, e3, ";")
+			}
+			return out
+		}},
+		Body{"Rating sequences B (3 packages)", func(keep *[]Retained) string {
+			out := ""
+			for _, sc := range []float64{7.0, 0.1, 10.5, 7.0, 3.9, 10, 10.5, 6.9} {
+				a, e1 := gocvss30.Rating(sc)
+				b, e2 := gocvss31.Rating(sc)
+				c, e3 := gocvss40.Rating(sc)
+				out += fmt.Sprint(a, e1, b, e2, c, e3, ";")
+			}
+			return out
+		}},
 		Body{"v3.0/v4/v2 unknown-abbreviation errors", func(keep *[]Retained) string {
 			_, e1 := gocvss30.ParseVector("CVSS:3.0/QUX:N")
 			o4 := shared40
